@@ -52,7 +52,9 @@ func init() {
 			"{in-place truncate+rewrite in 1..6 pieces, write-temp+rename-over, k8s swap (with/without removing the old dir, file or link first), symlink swap (same/new dir), " +
 			"delete+recreate (in place or renamed in), identical bytes (in place and atomic), malformed or empty content, revert to the last good bytes, sync point, gate (watcher held between its read and its report/watch repair while 1-2 steps run)} " +
 			"with seeded pauses (none, yield, 20us..50ms) and a seeded delay table on the file.read hook. A history is distinct by (layout, decoder, step-kind sequence with identical/revert/malformed/piece-count/variant marks) " +
-			"and non-trivial when it has at least one content-changing step and the watcher was observed re-reading the file at least once.",
+			"and non-trivial when it has at least one content-changing step and the watcher was observed re-reading the file at least once. " +
+			"Plus one scripted fault sequence in the first shard (first four in thorough): the watcher is stalled at the file.read hook, 2 x max_queued_events create+remove pairs overflow the inotify queue " +
+			"(confirmed by the descriptor's FIONREAD count no longer growing), the config is replaced by rename-over, the watcher is released; the view must converge (key no-converge:after-queue-overflow).",
 		Assumptions: []string{
 			"expected config = fresh dials.Config over a static in-memory source of the final bytes with the same decoder (decoders are trusted here; file.go is the code under test)",
 			"a sync point resets the set of admissible views only when the synced content is fresh (unique alpha) and was put in place atomically, so every later read sees complete contents",
@@ -64,9 +66,11 @@ func init() {
 		MinDistinct: map[string]int{"quick": 2500, "thorough": 40000},
 		MinCounters: map[string]map[string]int64{
 			"quick": {"final_valid_converged": 1200, "final_invalid_error_seen": 600, "identical_windows_judged": 500, "syncs_passed": 1800,
-				"release_checked": 3500, "hook_reads": 20000, "gates_held": 1500, "probe_selftest_ok": 300, "admissible_view_judged": 300, "fd_audits_ok": 3500},
+				"release_checked": 3500, "hook_reads": 20000, "gates_held": 1500, "probe_selftest_ok": 300, "admissible_view_judged": 300, "fd_audits_ok": 3500,
+				"queue_overflow_confirmed": 1},
 			"thorough": {"final_valid_converged": 20000, "final_invalid_error_seen": 10000, "identical_windows_judged": 9000, "syncs_passed": 30000,
-				"release_checked": 60000, "hook_reads": 300000, "gates_held": 25000, "probe_selftest_ok": 5000, "admissible_view_judged": 5000, "fd_audits_ok": 60000},
+				"release_checked": 60000, "hook_reads": 300000, "gates_held": 25000, "probe_selftest_ok": 5000, "admissible_view_judged": 5000, "fd_audits_ok": 60000,
+				"queue_overflow_confirmed": 3},
 		},
 		Plan: func(tier string) fw.Plan {
 			if tier == "thorough" {
@@ -91,9 +95,18 @@ func runC17(w *fw.Worker) {
 	}
 	if w.ReplayCase >= 0 {
 		w.Begin(w.ReplayCase)
-		env.runCase(w.ReplayCase)
+		if w.ReplayCase >= w.N {
+			env.runOverflowCase(w.ReplayCase)
+		} else {
+			env.runCase(w.ReplayCase)
+		}
 		c17TriageRaceLog(w.Count, w.SetAdd, w.Note)
 		return
+	}
+	if w.Shard < c17OverflowShards(w) {
+		// scripted fault sequence (inotify queue overflow), run alone: case index w.N
+		w.BeginDesc(w.N, "scripted inotify queue-overflow history")
+		env.runOverflowCase(w.N)
 	}
 	sem := make(chan struct{}, c17Conc)
 	var wg sync.WaitGroup
